@@ -178,7 +178,8 @@ def _r1_by_evaluation(ctx):
             [("180", "0.2"), ("120", "0.2")],        # close in both frames, straight in one only
             [("60", "0.1"), ("180", "0.24")]]        # one frame of two, the other sharply bent
     for freq_txt, kw, freq in (("freq=1/2", {"freq": rat("1/2")}, Fr(1, 2)), ("default freq", {}, Fr(1, 10)), ("freq=0", {"freq": rat(0)}, Fr(0)),
-                               ("freq=3/10", {"freq": rat("3/10")}, Fr(3, 10)), ("freq=7/10", {"freq": rat("7/10")}, Fr(7, 10))):
+                               ("freq=3/10", {"freq": rat("3/10")}, Fr(3, 10)), ("freq=7/10", {"freq": rat("7/10")}, Fr(7, 10))) + (() if ctx.tier != "thorough" else tuple(
+                                   ("freq=%d/20" % k, {"freq": rat("%d/20" % k)}, Fr(k, 20)) for k in (1, 3, 5, 9, 11, 13, 15, 17, 19, 20))):
         desc = "baker_hubbard on the threshold world, %s" % freq_txt
         try:
             ts, r, rec, trip, traj, top = run(bh, w_bh, at_H, 1, **kw)
